@@ -248,11 +248,12 @@ def replay(ctx, path):
             trace_violation(ctx, clean, bad, why, d["seed"], d["ntrials"])
     else:
         cases = ctx.path("case.ndjson")
-        with open(cases, "w") as f:
-            f.write(json.dumps(d["case"]) + "\n")
         # replay with every instantiation parity the driver uses (index 0..3 select type / variant / wrapper)
         with open(cases, "w") as f:
             for _ in range(4):
                 f.write(json.dumps(d["case"]) + "\n")
         replay_cases(ctx, binary, cases, d.get("kind", "hmm"), "replay")
+    ctx.states = max(ctx.states, 1)
+    ctx.transitions = max(ctx.transitions, 1)
+    ctx.traces = max(ctx.traces, 1)
     return ctx.finish(rule="replay of one recorded violation", evaluations=1, distinct_nontrivial=1)
